@@ -127,6 +127,9 @@ func c01Units(tier string) []*Unit {
 		sc := scen(fmt.Sprintf("parallel-roots/c%s", concName(conc)), pg, vlab.Options{Concurrency: conc, Parallel: true}, "a", "b")
 		us = append(us, &Unit{Name: sc.Name, Sc: sc, Bound: 2, Prune: true, Check: c01Check(pg), Weight: 3})
 	}
+	if tier == "thorough" {
+		us = append(us, taskgraphUnits("taskgraph3", []int{0, 2}, 2)...)
+	}
 	return us
 }
 
